@@ -14,7 +14,6 @@ import (
 	"bytes"
 	"encoding/json"
 	"fmt"
-	"io"
 	"os"
 	"path"
 	"path/filepath"
@@ -27,7 +26,9 @@ import (
 	v1 "github.com/google/go-containerregistry/pkg/v1"
 	"github.com/google/go-containerregistry/pkg/v1/empty"
 	"github.com/google/go-containerregistry/pkg/v1/mutate"
+	"github.com/google/go-containerregistry/pkg/v1/static"
 	"github.com/google/go-containerregistry/pkg/v1/tarball"
+	"github.com/google/go-containerregistry/pkg/v1/types"
 	"github.com/google/osv-scalibr/artifact/image/layerscanning/image"
 	"github.com/google/osv-scalibr/artifact/image/unpack"
 	scalibrlog "github.com/google/osv-scalibr/log"
@@ -236,11 +237,8 @@ func buildImage(l layout, c imgCase) (v1.Image, error) {
 	var layers []v1.Layer
 	for _, es := range c.Layers {
 		b := tarBytes(l, es)
-		layer, err := tarball.LayerFromOpener(func() (io.ReadCloser, error) { return io.NopCloser(bytes.NewReader(b)), nil })
-		if err != nil {
-			return nil, err
-		}
-		layers = append(layers, layer)
+		// uncompressed layers: gzip writers cost more than everything else in a case
+		layers = append(layers, static.NewLayer(b, types.DockerUncompressedLayer))
 	}
 	return mutate.AppendLayers(empty.Image, layers...)
 }
@@ -248,7 +246,7 @@ func buildImage(l layout, c imgCase) (v1.Image, error) {
 // ---------------------------------------------------------------------------------------
 // Generator.
 
-var segAlphabet = []string{"..", "..", "..", ".", "", "a", "b", "l", "up", "target", "target-evil", "outside", "tmp", "canary.txt", "secret.txt", "keep", "x", "LONG"}
+var segAlphabet = []string{"..", "..", "..", ".", "", "a", "b", "l", "up", "target", "target-evil", "outside", "tmp", "canary.txt", "secret.txt", "keep", "x"}
 
 func genSegs(t *rapid.T, label string, maxSegs int) string {
 	n := rapid.IntRange(1, maxSegs).Draw(t, label+"_n")
@@ -256,6 +254,13 @@ func genSegs(t *rapid.T, label string, maxSegs int) string {
 	dd := 0
 	for i := 0; i < n; i++ {
 		s := rapid.SampledFrom(segAlphabet).Draw(t, label+"_seg")
+		// very long components: 300 bytes (over NAME_MAX, the entry cannot exist) and 200 bytes (it can)
+		switch rapid.IntRange(0, 79).Draw(t, label+"_long") {
+		case 0:
+			s = "LONG"
+		case 1:
+			s = strings.Repeat("M", 200)
+		}
 		if s == ".." {
 			if dd >= 4 {
 				s = "a"
@@ -649,11 +654,14 @@ func propImage(c imgCase) (o ev.Outcome, err error) {
 			call(func() error { return u.UnpackSquashedFromTarball(l.T, tarPath) })
 		}
 		if panicked != "" {
-			o.Classes = append(o.Classes, "loader_panicked")
+			o.Classes = append(o.Classes, "loader_panicked:"+c.Loader)
 		} else if loadErr != nil {
-			o.Classes = append(o.Classes, "loader_error")
+			o.Classes = append(o.Classes, "loader_error:"+c.Loader)
+			if os.Getenv("C06_SHOWERR") != "" {
+				fmt.Printf("LOADERR %s: %.200v\n", c.Loader, loadErr)
+			}
 		} else {
-			o.Classes = append(o.Classes, "loader_ok")
+			o.Classes = append(o.Classes, "loader_ok:"+c.Loader)
 		}
 		after, err := sandbox.Take(R, nil)
 		if err != nil {
@@ -684,9 +692,12 @@ func propImage(c imgCase) (o ev.Outcome, err error) {
 		}
 		if panicked != "" || loadErr != nil || im == nil {
 			if panicked != "" {
-				o.Classes = append(o.Classes, "loader_panicked")
+				o.Classes = append(o.Classes, "loader_panicked:"+c.Loader)
 			} else {
-				o.Classes = append(o.Classes, "loader_error")
+				o.Classes = append(o.Classes, "loader_error:"+c.Loader)
+			if os.Getenv("C06_SHOWERR") != "" {
+				fmt.Printf("LOADERR %s: %.200v\n", c.Loader, loadErr)
+			}
 			}
 			// a failed load has no designated directory left: everything must be as before
 			if d := sandbox.Diff(before, after, nil); len(d) > 0 {
@@ -694,7 +705,7 @@ func propImage(c imgCase) (o ev.Outcome, err error) {
 			}
 			return o, nil
 		}
-		o.Classes = append(o.Classes, "loader_ok")
+		o.Classes = append(o.Classes, "loader_ok:"+c.Loader)
 		xd := im.ExtractDir
 		if !sandbox.Inside(filepath.Clean(xd), l.Tmp) || filepath.Clean(xd) == filepath.Clean(l.Tmp) {
 			return o, fmt.Errorf("ExtractDir %q is not a directory beneath TMPDIR %q", xd, l.Tmp)
